@@ -361,6 +361,8 @@ pub struct Violation {
     pub detail: String,
     pub step: usize,
     pub op: Op,
+    /// the state is wrong but nothing freed or unmapped is involved yet: the case goes on (see check_all, C02 containment)
+    pub soft: bool,
 }
 
 /// facts about a case used by the per-property non-triviality rules
